@@ -24,5 +24,5 @@ def run(ctx: Ctx) -> None:
     ctx.rule("R-LAYOUT-Y4", "both wrapper factories apply the same decorator stack")
     ctx.run(wrap.check_sentence_lines)
     ctx.run(wrap.check_sentence_split)
-    ctx.run(optflow.check_consumers)
+    ctx.run(optflow.check_consumers, ("semantic",))
     ctx.run(layout.check_decorator_stack)
